@@ -99,7 +99,11 @@ func runBranch(c *Ctx, ec *engCase, batch bool, mask uint, onWait func(s flows.S
 				er.Session = s2
 			}
 			restoreK := setDeterministic(ec.Seed + int64(k) + 1)
-			sp, err := er.Session.Resume(er.makeResume(spec))
+			refresh := ""
+			if k < len(ec.Refresh) {
+				refresh = ec.Refresh[k]
+			}
+			sp, err := er.Session.Resume(er.makeResumeWith(spec, refresh))
 			restoreK()
 			call := &engCall{Call: resumeCallName(spec), Sprint: sp, Err: err, Class: classOf(err)}
 			out = append(out, marshalCall(call, er.Session))
@@ -116,6 +120,11 @@ func runC02(c *Ctx) {
 		enrichForContext(r, ec.GA)
 		if len(ec.Resumes) > 6 {
 			ec.Resumes = ec.Resumes[:6]
+		}
+		// what the host attaches to each resume: mostly nothing, sometimes a refreshed environment and/or contact
+		ec.Refresh = nil
+		for range ec.Resumes {
+			ec.Refresh = append(ec.Refresh, Pick(r, []string{"", "", "", "env", "contact", "both"}))
 		}
 		batch := r.Chance(40)
 		// reference branch: everything in memory; also the marshal -> read -> marshal round trip at every wait
@@ -213,7 +222,9 @@ func compareBranches(a, b []branchCall) string {
 func enrichForContext(r *Rng, ga *genAssets) {
 	us := &uuidSeq{n: 700000 + r.Intn(1000)*100}
 	texts := []string{"resume=@resume.type", "parent=@parent.uuid @parent.status", "child=@child.status @child.results", "in=@input.text @input.created_on",
-		"res=@results", "run=@run.status @run.path", "node=@node.visit_count", "trig=@trigger.type", "c=@contact.name @contact.language @urns.tel"}
+		"res=@results", "run=@run.status @run.path", "node=@node.visit_count", "trig=@trigger.type", "c=@contact.name @contact.language @urns.tel",
+		"env=@(format_datetime(\"2020-03-15T15:30:00Z\")) @(format_date(\"2020-03-15T15:30:00Z\")) @(datetime(\"01-02-2020 3:04\")) @(format_number(1234.5))",
+		"created=@contact.created_on @(format_time(\"15:30\")) @(default(contact.tel, \"?\")) @(format_urn(urns.tel))"}
 	for _, f := range ga.Flows {
 		for _, n := range f.Nodes {
 			if r.Chance(60) {
